@@ -95,7 +95,7 @@ def s_C14(tier, rng):
             ("serde_big", gen.serde_big(tier, rng)),
             ("serde_roundtrip", gen.serde_roundtrip(tier, rng, Q(tier, 2000, 30000))),
             ("serde_stream", gen.serde_stream(tier, rng, Q(tier, 600, 6000))),
-            ("serde_wide", gen.serde_wide(tier, rng, Q(tier, 40, 800))),
+            ("serde_wide", gen.serde_wide(tier, rng, Q(tier, 40, 500))),
             ("serde_full_keyspace", gen.serde_full_keyspace(rng)),
             ("keyfill", gen.keyfill(tier, rng)),
             ("random_histories", gen.random_histories(tier, rng, Q(tier, 400, 5000)))]
@@ -105,7 +105,7 @@ def s_C15(tier, rng):
             ("serde_in_place", gen.serde_in_place(tier, rng, Q(tier, 300, 3000))),
             ("serde_big", gen.serde_big(tier, rng)),
             ("serde_stream", gen.serde_stream(tier, rng, Q(tier, 3000, 50000))),
-            ("serde_wide", gen.serde_wide(tier, rng, Q(tier, 100, 2000))),
+            ("serde_wide", gen.serde_wide(tier, rng, Q(tier, 100, 1000))),
             ("serde_full_keyspace", gen.serde_full_keyspace(rng)),
             ("serde_roundtrip", gen.serde_roundtrip(tier, rng, Q(tier, 500, 5000)))]
 
@@ -126,7 +126,7 @@ def s_C17(tier, rng):
                 yield gen.random_history(_r.Random(seed), f"rt{k}-{V}", Q(tier, 40, 120), V=V)
     return [("corpus", gen.corpus()),
             ("collections", gen.collections(tier, rng, Q(tier, 1000, 15000))),
-            ("collections_bulk", gen.collections_bulk(tier, rng, Q(tier, 40, 1500))),
+            ("collections_bulk", gen.collections_bulk(tier, rng, Q(tier, 40, 500))),
             ("routed_histories", routed()),
             ("statics_routes", gen.statics_routes(tier, rng, Q(tier, 600, 6000))),
             ("views", gen.views(tier, rng, Q(tier, 400, 4000)))]
